@@ -304,3 +304,92 @@ Definition rcase_model_agrees (c : rcase) : bool :=
   let '(a', sa) := run_cmds FUEL (q_prog c) a (q_cmds c) in
   let '(b', sb) := run_cmds FUEL (q_prog c) b (q_cmds c) in
   negb (running s) && list_eqb snap_eqb sa sb && logs_eqb (logs_since s a') (logs_of b').
+
+(* ---- whole histories on the simulator + model object, with snapshots, for
+   the correspondence check: several models take turns ---- *)
+Definition x_cmd_res (fuel : nat) (xp : xprog) (x : xsim) (c : cmd) : xsim * cres * bool :=
+  match c with
+  | CInit r =>
+      let '(x', res) := x_init true xp x r in
+      (x', match res with XOk => ResOk | _ => ResRefused end,
+       match res with XAlreadyRegistered => true | _ => false end)
+  | _ => let '(s', res) := do_cmd fuel (xp_prog xp) (x_sim x) c in (mkX s' (x_mdl x), res, false)
+  end.
+
+(* the boolean: some initialize left through "already registered" (the
+   simulator part of that is not modelled) *)
+Fixpoint x_hist_snaps (fuel : nat) (x : xsim) (h : list (xprog * cmd)) : xsim * list snap * bool :=
+  match h with
+  | [] => (x, [], false)
+  | (xp, c) :: r =>
+      let '(x1, res, bad) := x_cmd_res fuel xp x c in
+      let '(x2, sn, bad2) := x_hist_snaps fuel x1 r in
+      let s1 := x_sim x1 in
+      (x2, mkSnap res (rs s1) (ps s1) (clock s1) (length (pend s1)) :: sn, bad || bad2)
+  end.
+
+Definition skind_eqb (a b : skind) : bool :=
+  match a, b with
+  | KCounter, KCounter | KTally, KTally | KPersistent, KPersistent => true
+  | _, _ => false
+  end.
+
+Definition rep_eqb (a : nat * option (skind * list obsrec)) (b : nat * skind * list obsrec) : bool :=
+  let '(k2, kd2, fd2) := b in
+  Nat.eqb (fst a) k2 &&
+  match snd a with
+  | Some (kd, fd) => skind_eqb kd kd2 && list_eqb obsrec_eqb fd fd2
+  | None => false
+  end.
+
+Fixpoint reps_eqb (a : list (nat * option (skind * list obsrec))) (b : list (nat * skind * list obsrec)) : bool :=
+  match a, b with
+  | [], [] => true
+  | x :: r, y :: s => rep_eqb x y && reps_eqb r s
+  | _, _ => false
+  end.
+
+Record xcase := mkXCase {
+  xc_strat : strategy;
+  xc_hist : list (xprog * cmd);
+  xc_exp : expect;
+  xc_reported : list (nat * skind * list obsrec)   (* the current model's output statistics at the end *)
+}.
+
+(* the reported statistics of the model initialised last *)
+Definition xcase_code (c : xcase) : nat :=
+  let '(x, sn, bad) := x_hist_snaps FUEL (x0 (xc_strat c)) (xc_hist c) in
+  let s := x_sim x in
+  let e := xc_exp c in
+  if flag s || bad then 2%nat
+  else if list_eqb snap_eqb sn (x_snaps e)
+          && list_eqb kc_eqb (user_trace s) (x_trace e)
+          && list_eqb outcome_eqb (rev (outs s)) (x_outs e)
+          && list_eqb ntf_eqb (rev (ntfs s)) (x_ntfs e)
+          && list_eqb obsrec_eqb (user_obs s) (x_obs e)
+          && list_eqb Nat.eqb (user_canc s) (x_canc e)
+          && Bool.eqb (match worker s with WAlive => true | _ => false end) (x_alive e)
+          && reps_eqb (reported x) (xc_reported c)
+       then 0%nat else 1%nat.
+
+Definition xcase_diff (c : xcase) : list bool :=
+  let '(x, sn, bad) := x_hist_snaps FUEL (x0 (xc_strat c)) (xc_hist c) in
+  let s := x_sim x in
+  let e := xc_exp c in
+  [flag s; bad; list_eqb snap_eqb sn (x_snaps e); list_eqb kc_eqb (user_trace s) (x_trace e);
+   list_eqb outcome_eqb (rev (outs s)) (x_outs e); list_eqb ntf_eqb (rev (ntfs s)) (x_ntfs e);
+   list_eqb obsrec_eqb (user_obs s) (x_obs e); list_eqb Nat.eqb (user_canc s) (x_canc e);
+   Bool.eqb (match worker s with WAlive => true | _ => false end) (x_alive e);
+   reps_eqb (reported x) (xc_reported c)].
+
+Definition xcase_view (c : xcase) :=
+  let '(x, sn, bad) := x_hist_snaps FUEL (x0 (xc_strat c)) (xc_hist c) in
+  let s := x_sim x in
+  (sn, user_trace s, rev (outs s), rev (ntfs s), user_obs s, user_canc s, worker s, reported x).
+
+Fixpoint xcodes_from (i : nat) (want : nat) (cs : list xcase) : list nat :=
+  match cs with
+  | [] => []
+  | c :: r => if Nat.eqb (xcase_code c) want then i :: xcodes_from (S i) want r
+              else xcodes_from (S i) want r
+  end.
